@@ -1597,6 +1597,8 @@ func checkEquality(v1, v2 reflect.Value) bool {
 }
 
 func isTrue(v reflect.Value) bool {
+	// a value held in an interface (an element of []interface{}, say) is as truthy as the value itself
+	v = indirectInterface(v)
 	return v.IsValid() && !v.IsZero()
 }
 
